@@ -8,6 +8,10 @@ import Poulpy.Lemmas.GadgetExec
 import Poulpy.Lemmas.AutoMul
 import Poulpy.Lemmas.PackGalois
 import Poulpy.Lemmas.PackPhase
+import Poulpy.Lemmas.KsNoise
+import Poulpy.Lemmas.LweIdx
+import Poulpy.Lemmas.PackValue
+import Poulpy.Lemmas.KsCompose
 import Poulpy.Model.Core.Pack
 import Poulpy.Props.C09
 
@@ -25,7 +29,7 @@ Model: `Poulpy/Model/Core/Ks.lean` (what `pdriver ks` executes).  Two layers, as
   for `dsize = 1` this is the whole product (`keyswitch_phase_dsize1`, end to end from the ciphertext:
   `keyswitch_internal_phase_dsize1`); for `dsize > 1` the loop over the `dsize` passes is characterised limb by limb
   (`product_accum_dsize_gt1`, phase level `keyswitch_phase_dsize_gt1`), each pass is an instance
-  (`product_pass_phase_partial`) on the regrouped input (`product_pass_selection_partial`); only the notational
+  (`product_pass_phase`) on the regrouped input (`product_pass_selection`); only the notational
   identification of these list sums with the `Finset` sums of `Gadget.acc` is left (see the FULL STATEMENT block).
 * `product_determined`: the product does not depend on the previous content of its result buffer (the
   defect found by the correspondence — fused automorphism forms read an un-zeroed scratch buffer for
@@ -384,10 +388,10 @@ example (l : Nat) :
     (by decide) rfl rfl rfl (entry_length AccumExample.exKey3.mat 1 rfl (by decide))
 
 
-/-- **`product_pass_phase_partial`**: pass `di > 0` of the `dsize > 1` branch writes into `res_dft_tmp`
+/-- **`product_pass_phase`**: pass `di > 0` of the `dsize > 1` branch writes into `res_dft_tmp`
 the vector-matrix product with `limb_offset = di`; its phase at limb `l` is
 `Σ_j ai_j ⋆ phase(key row j, limb l + di)` — the `di`-th term of the gadget identity. -/
-theorem product_pass_phase_partial (sk : List Poly) (a : Buf) (key : Key) (st : ProdSt) (di l : Nat) (hdi : di ≠ 0)
+theorem product_pass_phase (sk : List Poly) (a : Buf) (key : Key) (st : ProdSt) (di l : Nat) (hdi : di ≠ 0)
     (htmp : st.tmp.WF) (hsz : key.mat.size - (key.dsize - di - 2) ≤ st.tmp.maxSize)
     (hcols : st.tmp.cols = key.mat.colsOut) (hc : 0 < key.mat.colsOut)
     (hl : l < key.mat.size - (key.dsize - di - 2)) (hlo : l + di < key.mat.size)
@@ -425,10 +429,10 @@ theorem dft_select_limbIdx (n dsize di rs : Nat) (a : Col) (r : Nat) (hd : 0 < d
       omega
     rw [if_neg h4]
 
-/-- **`product_pass_selection_partial`**: in pass `di` the buffer `ai_dft` holds, in column `c` and limb
+/-- **`product_pass_selection`**: in pass `di` the buffer `ai_dft` holds, in column `c` and limb
 `r < min((a_size+di)/dsize, dnum)`, the input limb `Gadget.limbIdx dsize r di` of column `c` — the
 regrouping of the limbs into the digits of `gadget_identity`. -/
-theorem product_pass_selection_partial (a : Buf) (key : Key) (st : ProdSt) (di c r : Nat)
+theorem product_pass_selection (a : Buf) (key : Key) (st : ProdSt) (di c r : Nat)
     (hd : 0 < key.dsize) (hdi : di < key.dsize) (hai : st.ai.WF) (hcols : st.ai.cols = a.cols)
     (hsz : min ((a.size + di) / key.dsize) key.mat.rows ≤ st.ai.maxSize) (hc : c < a.cols)
     (hr : r < min ((a.size + di) / key.dsize) key.mat.rows) :
@@ -566,7 +570,7 @@ def exKey3 : Key := AccumExample.exKey3
 def exA3 : Buf := AccumExample.exA3
 def dirty3 : Buf := AccumExample.dirty3
 
-/-- non-vacuity of `product_pass_selection_partial`: pass `di = 2` of a `dsize = 3` product selects input limb 0 -/
+/-- non-vacuity of `product_pass_selection`: pass `di = 2` of a `dsize = 3` product selects input limb 0 -/
 example : limbOr0 1 ((productStep exA3 exKey3 { res := zeroBuf 1 1 4, ai := zeroBuf 1 1 1, tmp := zeroBuf 1 1 4 } 2).ai.act 0) 0 = [1] := by
   decide
 
@@ -732,5 +736,332 @@ theorem pack_entry_checks (big128 : Bool) (N kb : Nat) (keys : List Key) (rb rs 
   simp [pack, hj]
 
 example : pack false 8 4 [] 4 1 [(9, mkCt 4 8 [])] 0 = .panic "assert" := (pack_entry_checks false 8 4 [] 4 1 0).2 9 _ (by decide)
+
+/-! ## Closing round: executed noise bound, matrix-level / fused / LWE operations, packing values
+
+* `keyswitch_executed_noise_bound`: `gadget_identity` + `gadget_error_bound` applied to the executed `gglwe_product_dft` as one corollary.
+* matrix-level and fused operations (`Lemmas/KsCompose.lean`): structural theorems for all shapes (which GLWE call produces which
+  ciphertext) and phase theorems with an explicit additive error term under the GLWE-level contract `phOut (KS x) = phIn x + err x`
+  (the product part of that contract is `keyswitch_executed_noise_bound`, the conversions / final normalisation are C08, the automorphism
+  part is `automorphism_phase_key`, the row expansion is `C04.row_expansion_identity`) — the contracts are hypotheses, stated as such.
+* LWE ↔ GLWE (`Lemmas/LweIdx.lean`): exact list-level index maps.
+* packing / trace / packer values for every subset (`Lemmas/PackValue.lean`), over `Pack.Contract`. -/
+
+section Closing
+open Core LweIdx AutoMul Pack Polynomial Finset
+variable {M : Type*} [AddCommGroup M]
+
+/-- **`keyswitch_executed_noise_bound`** — the executed key-switch product, every `dsize ≥ 1`, rank_in, rank_out, `dnum`, limb counts: in `ℤ[X]/(X^N+1)`
+(radix `2^b`) value of the phase of `gglwe_product_dft` = `Σ_i s_i·usedVal(a_i) + err − drop − 2^{bS}·head`, with the coefficient-wise bounds
+`‖err‖_∞ ≤ Σ_{i,r} ‖digit_{i,r}‖₁·‖E_{i,r}‖_∞` (`gadget_error_bound` on the executed digits `Ks.digitL`) and `‖drop‖_∞ ≤ Σ 2^{b(S−1−l)}·‖a_i[limbIdx]‖₁·‖φ_{i,r}[l+di]‖_∞`
+over the dropped limbs (`szOf ≤ l`, `l+di < S`; empty for `dsize ≤ 2`). -/
+theorem keyswitch_executed_noise_bound (N b : ℕ) (sk : List Poly) (res a : Buf) (key : Key) (s : ℕ → R N)
+    (EL : ℕ → ℕ → Poly)
+    (hD : 1 ≤ key.dsize) (hN : 0 < N) (hres : res.WF) (hmax : res.maxSize = key.mat.size) (hsize : res.size = key.mat.size)
+    (hcols : res.cols = key.mat.colsOut) (hc0 : 0 < key.mat.colsOut) (hresn : res.n = N) (han : a.n = N)
+    (hacols : a.cols = key.mat.colsIn) (hM : ∀ j q, (key.mat.entry j q).length = N)
+    (hS : key.mat.rows * key.dsize ≤ key.mat.size)
+    (hkey : ∀ i, i < key.mat.colsIn → ∀ r, r < key.mat.rows →
+      Gadget.val (radix N b) key.mat.size (keyPhase N sk key.mat i r) =
+        s i * radix N b ^ (key.mat.size - (r + 1) * key.dsize) + ι N (EL i r))
+    (hA : ∀ c l, (limbOr0 N (a.act c) l).length = N) (hEL : ∀ i r, (EL i r).length = N) :
+    (∑ l ∈ Finset.range key.mat.size,
+        ι N (phaseRow sk ((List.range res.cols).map (fun c => limbOr0 N ((gglweProductDft res a key).act c) l))) *
+          radix N b ^ (key.mat.size - 1 - l) =
+      ∑ i ∈ Finset.range key.mat.colsIn,
+          s i * Gadget.usedVal (radix N b) key.mat.size key.dsize key.mat.rows a.size (inLimb N a i)
+        + ι N (errL N b a key EL) - ι N (dropL N b sk a key)
+        - radix N b ^ key.mat.size * ∑ i ∈ Finset.range key.mat.colsIn,
+            Gadget.head (radix N b) key.dsize key.mat.rows a.size (inLimb N a i) (keyPhase N sk key.mat i)) ∧
+    normInf (errL N b a key EL) ≤
+      (∑ i ∈ Finset.range key.mat.colsIn, ∑ r ∈ Finset.range key.mat.rows,
+        norm1 (digitL N b a key i r) * normInf (EL i r)) ∧
+    normInf (dropL N b sk a key) ≤
+      ∑ i ∈ Finset.range key.mat.colsIn, ∑ di ∈ Finset.range key.dsize,
+        ∑ r ∈ Finset.range (Gadget.rowsOf a.size key.dsize key.mat.rows di), ∑ l ∈ Finset.range key.mat.size,
+          if Gadget.szOf key.mat.size key.dsize di ≤ l ∧ l + di < key.mat.size then
+            (2 : ℤ) ^ (b * (key.mat.size - 1 - l)) *
+              (norm1 (limbOr0 N (a.act i) (Gadget.limbIdx key.dsize r di)) *
+                normInf (phaseRow sk (rowLimb key.mat (r * key.mat.colsIn + i) (l + di))))
+          else 0 := by
+  apply Ks.keyswitch_executed_noise_bound_drop <;> assumption
+
+/-- non-vacuity: the `dsize = 3`, `N = 1` key with a garbage-filled result buffer, any radix, any secrets `sL`: the key hypothesis
+is discharged by `key_error_is_defined` -/
+example (b : ℕ) (sk : List Poly) (sL : ℕ → Poly) (hsL : ∀ i, (sL i).length = 1) :
+    normInf (errL 1 b AccumExample.exA3 AccumExample.exKey3 (keyErrL 1 b sk AccumExample.exKey3 sL)) ≤
+      ∑ i ∈ Finset.range 1, ∑ r ∈ Finset.range 1,
+        norm1 (digitL 1 b AccumExample.exA3 AccumExample.exKey3 i r) * normInf (keyErrL 1 b sk AccumExample.exKey3 sL i r) :=
+  (keyswitch_executed_noise_bound 1 b sk AccumExample.dirty3 AccumExample.exA3 AccumExample.exKey3 (fun i => ι 1 (sL i))
+    (keyErrL 1 b sk AccumExample.exKey3 sL) (by decide) (by decide) AccumExample.dirty3_WF rfl rfl rfl (by decide) rfl rfl rfl
+    (entry_length AccumExample.exKey3.mat 1 rfl (by decide)) (by decide)
+    (fun i _ r _ => keyErrL_spec 1 b sk AccumExample.exKey3 sL i r (by decide) (entry_length AccumExample.exKey3.mat 1 rfl (by decide)) hsL)
+    (limbOr0_act_length 1 AccumExample.exA3 (by decide))
+    (fun i r => keyErrL_length 1 b sk AccumExample.exKey3 sL i r (by decide) (entry_length AccumExample.exKey3.mat 1 rfl (by decide)) hsL)).2.1
+
+/-- the key hypothesis of `keyswitch_executed_noise_bound` is satisfiable for EVERY key and every choice of secrets `sL`: `EL := keyErrL` (the row's phase value minus `s_i·2^{b(S−(r+1)dsize)}`)
+is the key error; the theorem then bounds the output error by it -/
+theorem key_error_is_defined (N b : ℕ) (sk : List Poly) (key : Key) (sL : ℕ → Poly) (i r : ℕ)
+    (hc0 : 0 < key.mat.colsOut) (hM : ∀ j q, (key.mat.entry j q).length = N) (hsL : ∀ i, (sL i).length = N) :
+    Gadget.val (radix N b) key.mat.size (keyPhase N sk key.mat i r) =
+      ι N (sL i) * radix N b ^ (key.mat.size - (r + 1) * key.dsize) + ι N (keyErrL N b sk key sL i r) := by
+  apply Ks.keyErrL_spec <;> assumption
+
+/-- size of the executed digits: `‖digit_{i,r}‖₁ ≤ Σ_{di<dsize} 2^{b·di}·‖a_i[r·dsize+dsize−1−di]‖₁` -/
+theorem digit_norm_bound (N b : ℕ) (a : Buf) (key : Key) (i r : ℕ) :
+    norm1 (digitL N b a key i r) ≤
+      ∑ di ∈ Finset.range key.dsize,
+        (2 : ℤ) ^ (b * di) * norm1 (limbOr0 N (a.act i) (Gadget.limbIdx key.dsize r di)) := by
+  apply Ks.norm1_digitL_le <;> assumption
+
+example : norm1 (digitL 1 4 AccumExample.exA3 AccumExample.exKey3 0 0) = 256 := by decide
+
+/-- the LWE inner product is the constant coefficient of the GLWE product with the `σ_{−1}`-embedded secret (what `glwe_to_lwe_key` / `lwe_to_glwe_key` / `lwe_switching_key` encrypt under) -/
+theorem lwe_inner_product_is_coeff0 {N : Nat} (s a : Poly) (hs : s.length = N) (ha : a.length = N) (hN : 0 < N) :
+    (Hal.negMul (AutoMul.σ (-1) s) a).getD 0 0 = ∑ j ∈ Finset.range N, s.getD j 0 * a.getD j 0 := by
+  apply LweIdx.coeff0_negMul_σ <;> assumption
+
+example : (Hal.negMul (AutoMul.σ (-1) [1, 2, 3, 4]) [5, -6, 7, 8]).getD 0 0 = 1 * 5 + 2 * (-6) + 3 * 7 + 4 * 8 := by decide
+
+/-- **`lwe_to_glwe` / `lwe_keyswitch` input side**: limb `i` of the embedding `Ks.lweToGlweCols` (`[b,0…]`, `[a₁…a_n,0…]`) has, under `σ_{−1}(pad s_lwe)`, a phase whose constant coefficient is the LWE phase `b + Σ a_j s_j` -/
+theorem lwe_embedding_phase (N : Nat) (l : Ks.Lwe) (sLwe : Poly) (i : Nat) (hN : 0 < N) (hn : l.nLwe ≤ N)
+    (hs : sLwe.length = l.nLwe) (hi : i < l.data.length) :
+    (Ks.phaseRow [AutoMul.σ (-1) (Ks.padTo N sLwe)] ((Ks.lweToGlweCols N l).map (fun c => c.getD i []))).getD 0 0
+      = (l.data.getD i []).getD 0 0
+        + ∑ j ∈ Finset.range l.nLwe, (l.data.getD i []).getD (j + 1) 0 * sLwe.getD j 0 := by
+  apply LweIdx.lweToGlwe_phase <;> assumption
+
+example : (Ks.phaseRow [AutoMul.σ (-1) (Ks.padTo 4 [2, -3])] [Ks.padTo 4 [7], Ks.padTo 4 [5, 11]]).getD 0 0 = 7 + (5 * 2 + 11 * (-3)) := by
+  decide
+
+/-- **sample-extraction index map**: coefficient 0 of the phase of `X^{−idx}·ct` is coefficient `idx` of the phase of `ct` (`glwe_rotate(−idx)` in `lwe_from_glwe`) -/
+theorem extract_index (N : Nat) (sk cs : List Poly) (idx : Nat) (hcs : Ks.AllLen N cs) (hne : cs ≠ [])
+    (hidx : idx < N) :
+    (Ks.phaseRow sk (cs.map (rotE (-(idx : Int))))).getD 0 0 = (Ks.phaseRow sk cs).getD idx 0 := by
+  apply LweIdx.extract_index <;> assumption
+
+example : (Ks.phaseRow [[1, 2, 3, 4]] ([[9, 8, 7, 6], [5, -6, 7, 8]].map (rotE (-3)))).getD 0 0
+    = (Ks.phaseRow [[1, 2, 3, 4]] [[9, 8, 7, 6], [5, -6, 7, 8]]).getD 3 0 := by decide
+
+/-- the same on the executed `Ks.glweRotate` (in-range digits) -/
+theorem extract_index_glwe (N : Nat) (sk : List Poly) (a : Ks.Ct) (idx i : Nat)
+    (hne : a.cols ≠ []) (hsz : ∀ c ∈ a.cols, c.length = a.size) (hi : i < a.size)
+    (hlen : ∀ c ∈ a.cols, ∀ p ∈ c, p.length = N) (hr : ∀ c ∈ a.cols, ∀ p ∈ c, ∀ x ∈ p, InR x)
+    (hidx : idx < N) :
+    (Ks.phaseRow sk (rowAt (Ks.glweRotate (-(idx : Int)) a).cols i)).getD 0 0
+      = (Ks.phaseRow sk (rowAt a.cols i)).getD idx 0 := by
+  apply LweIdx.extract_index_glwe <;> assumption
+
+/-- **`lwe_sample_extract`**, all shapes: limb `i < min(res.size, a.size)` is `[body_i[0]] ++ mask_i[0..n_lwe)`, the remaining limbs are zero; assertions `res.n ≤ a.n`, equal radices -/
+theorem sample_extract_spec (rb rs rN : Nat) (a : Ks.Ct) (l : Ks.Lwe) (h : Ks.sampleExtract rb rs rN a = .ok l) :
+    l.base2k = rb ∧ l.nLwe = rN ∧ l.data.length = rs ∧ rN ≤ a.n ∧ rb = a.base2k
+    ∧ (∀ i, i < min rs a.size →
+        l.data.getD i [] = ((a.cols.getD 0 []).getD i []).take 1 ++ ((a.cols.getD 1 []).getD i []).take rN)
+    ∧ (∀ i, min rs a.size ≤ i → i < rs → l.data.getD i [] = List.replicate (rN + 1) 0) := by
+  apply LweIdx.sampleExtract_spec <;> assumption
+
+example : Ks.sampleExtract 17 3 2 (Ks.mkCt 17 4 [[[1, 2, 3, 4], [5, 6, 7, 8]], [[9, 10, 11, 12], [13, 14, 15, 16]]])
+    = .ok { base2k := 17, nLwe := 2, data := [[1, 9, 10], [5, 13, 14], [0, 0, 0]] } := by
+  rw [sampleExtract_ok 17 3 2 _ (by decide) (by decide)]
+  congr 2
+
+/-- **`glwe_to_lwe` output side**: the LWE sample extracted from `(X^{−idx}c₀, X^{−idx}c₁)` decrypts under `s_lwe` to coefficient `idx` of the GLWE phase of `(c₀, c₁)` under `σ_{−1}(pad s_lwe)` -/
+theorem extract_at_index {N rN : Nat} (c0 c1 sLwe : Poly) (idx : Nat) (h0 : c0.length = N) (h1 : c1.length = N)
+    (hidx : idx < N) (hr : rN ≤ N) (hs : sLwe.length = rN) :
+    ((rotE (-(idx : Int)) c0).take 1 ++ (rotE (-(idx : Int)) c1).take rN).getD 0 0
+        + ∑ j ∈ Finset.range rN,
+            ((rotE (-(idx : Int)) c0).take 1 ++ (rotE (-(idx : Int)) c1).take rN).getD (j + 1) 0 * sLwe.getD j 0
+      = (Ks.phaseRow [AutoMul.σ (-1) (Ks.padTo N sLwe)] [c0, c1]).getD idx 0 := by
+  apply LweIdx.extract_at_index <;> assumption
+
+/-- `lwe_from_glwe = lwe_sample_extract ∘ glwe_keyswitch ∘ glwe_rotate(−idx)` -/
+theorem lwe_from_glwe_structure (big : Bool) (rb rs rN : Nat) (a : Ks.Ct) (idx : Nat) (key : Ks.Key) (h : rN ≤ a.n) :
+    Ks.lweFromGlwe big rb rs rN a idx key
+      = Ks.obind (Ks.keyswitch big rb rs 1 (if idx = 0 then a else Ks.glweRotate (-(idx : Int)) a) key)
+          (Ks.sampleExtract rb rs rN) := by
+  apply LweIdx.lweFromGlwe_eq <;> assumption
+
+/-- `lwe_keyswitch = lwe_sample_extract ∘ glwe_keyswitch ∘ embedding` -/
+theorem lwe_keyswitch_structure (big : Bool) (n rb rs rN : Nat) (a : Ks.Lwe) (key : Ks.Key) (h1 : rN ≤ n) (h2 : a.nLwe ≤ n) :
+    Ks.lweKeyswitch big n rb rs rN a key
+      = Ks.obind (Ks.keyswitch big rb rs 1 (Ks.mkCt a.base2k n (Ks.lweToGlweCols n a)) key)
+          (Ks.sampleExtract rb rs rN) := by
+  apply LweIdx.lweKeyswitch_eq <;> assumption
+
+/-- `glwe_from_lwe = glwe_keyswitch ∘ embedding` (same radix; `LweIdx.glweFromLwe_eq_conv` for the cross-radix path) -/
+theorem glwe_from_lwe_structure (big : Bool) (n rb rs rr : Nat) (lwe : Ks.Lwe) (key : Ks.Key) (h : lwe.nLwe ≤ n)
+    (hb : lwe.base2k = key.base2k) :
+    Ks.glweFromLwe big n rb rs rr lwe key
+      = Ks.keyswitch big rb rs rr (Ks.mkCt key.base2k n (Ks.lweToGlweCols n lwe)) key := by
+  apply LweIdx.glweFromLwe_eq_same <;> assumption
+
+/-- **`gglwe_keyswitch` is the row-wise `glwe_keyswitch`** over the `res.dnum × rank_in` ciphertexts -/
+theorem gglwe_keyswitch_rows (big128 : Bool) (rb rs rri rro rd rds : Nat) (a : Mat) (b : Key) (cts : List Ct)
+    (h : gglweKeyswitch big128 rb rs rri rro rd rds a b = .ok cts) :
+    cts.length = rd * rri ∧ ∀ (idx : Nat) (y : Ct), cts[idx]? = some y → ∃ x, a.cts[idx]? = some x ∧ keyswitch big128 rb rs rro x b = .ok y := by
+  apply Ks.gglweKeyswitch_rows <;> assumption
+
+/-- a 1-row switching key at `N = 1` key-switched by a 1-row key: the call succeeds (kernel evaluation of the executed model) -/
+def exK1 : Key := { base2k := 4, dsize := 1, p := 1, mat := { n := 1, rows := 1, colsIn := 1, colsOut := 2, size := 2, data := [[[[1], [0]], [[1], [2]]]] } }
+def exM1 : Mat := { base2k := 4, dsize := 1, dnum := 1, rankIn := 1, rankOut := 1, cts := [mkCt 4 1 [[[3]], [[1]]]] }
+example : ∃ cts, gglweKeyswitch false 4 1 1 1 1 1 exM1 exK1 = .ok cts := ⟨_, rfl⟩
+
+/-- the in-place form -/
+theorem gglwe_keyswitch_assign_rows (big128 : Bool) (res : Mat) (b : Key) (cts : List Ct)
+    (h : gglweKeyswitchAssign big128 res b = .ok cts) :
+    cts.length = res.cts.length ∧
+      ∀ (idx : Nat) (y : Ct), cts[idx]? = some y → ∃ x, res.cts[idx]? = some x ∧ keyswitch big128 x.base2k x.size x.rank x b = .ok y := by
+  apply Ks.gglweKeyswitchAssign_rows <;> assumption
+
+/-- **`gglwe_keyswitch` preserves every row's plaintext** under the GLWE contract `phOut (KS x) = phIn x + err x` (established for the product by `keyswitch_executed_noise_bound`, for the conversions/normalisation by C08) -/
+theorem gglwe_keyswitch_phase (big128 : Bool) (rb rs rri rro rd rds : Nat) (a : Mat) (b : Key) (cts : List Ct)
+    (phIn phOut err : Ct → M)
+    (hks : ∀ x y, keyswitch big128 rb rs rro x b = .ok y → phOut y = phIn x + err x)
+    (h : gglweKeyswitch big128 rb rs rri rro rd rds a b = .ok cts) :
+    ∀ (idx : Nat) (y : Ct), cts[idx]? = some y → ∃ x, a.cts[idx]? = some x ∧ phOut y = phIn x + err x := by
+  apply Ks.gglwe_keyswitch_phase <;> assumption
+
+/-- the contract is satisfiable on that instance (degenerate zero phase; the quantitative instance is `keyswitch_executed_noise_bound` + the oracle) -/
+example : ∀ (idx : Nat) (y : Ct), (match gglweKeyswitch false 4 1 1 1 1 1 exM1 exK1 with | .ok c => c | _ => [])[idx]? = some y →
+    ∃ x, exM1.cts[idx]? = some x ∧ (fun _ : Ct => (0 : ℤ)) y = (fun _ : Ct => (0 : ℤ)) x + (fun _ : Ct => (0 : ℤ)) x :=
+  gglwe_keyswitch_phase false 4 1 1 1 1 1 exM1 exK1 _ (fun _ => (0 : ℤ)) (fun _ => 0) (fun _ => 0) (fun _ _ _ => by simp) rfl
+
+/-- `glwe_automorphism = vec_znx_automorphism(p) ∘ glwe_keyswitch` -/
+theorem automorphism_is_keyswitch_then_sigma (big128 : Bool) (rb rs rr : Nat) (a : Ct) (key : Key) (y : Ct)
+    (h : automorphism big128 rb rs rr a key = .ok y) :
+    ∃ r, keyswitch big128 rb rs rr a key = .ok r ∧ y = ctMapCols r (vecAutomorphismAssignW w64 key.p) := by
+  apply Ks.automorphism_is_ks_then_sigma <;> assumption
+
+example : ∃ y, automorphism false 4 1 1 (mkCt 4 1 [[[3]], [[1]]]) exK1 = .ok y := ⟨_, rfl⟩
+
+/-- **`glwe_automorphism` decrypts to `σ_p(φ) + σ_p(err)`** (contracts: key-switch with error, `automorphism_phase_key`) -/
+theorem automorphism_phase_err (big128 : Bool) (rb rs rr : Nat) (a : Ct) (key : Key) (y : Ct)
+    (phIn phMid phOut err : Ct → M) (sg : M →+ M)
+    (hks : ∀ x r, keyswitch big128 rb rs rr x key = .ok r → phMid r = phIn x + err x)
+    (hsig : ∀ r, phOut (ctMapCols r (vecAutomorphismAssignW w64 key.p)) = sg (phMid r))
+    (h : automorphism big128 rb rs rr a key = .ok y) : phOut y = sg (phIn a) + sg (err a) := by
+  apply Ks.automorphism_phase_err <;> assumption
+
+/-- **`glwe_automorphism_key_automorphism`**: new Galois element `p·q % 2N`, every ciphertext is `σ_{p⁻¹} ∘ KS ∘ σ_p` of the operand's -/
+theorem atk_automorphism_rows (big128 : Bool) (n rb rs rd rds : Nat) (pA : Int) (a : Mat) (key : Key) (pr : Int) (cts : List Ct)
+    (h : atkAutomorphism big128 n rb rs rd rds pA a key = .ok (pr, cts)) :
+    pr = mulGalois pA key.p n ∧ cts.length = rd * key.rankIn ∧
+      ∃ pInv, galoisElementInv pA (cyclotomicOrder n) = .ok pInv ∧
+        ∀ (idx : Nat) (y : Ct), cts[idx]? = some y → ∃ x, a.cts[idx]? = some x ∧ atkAutoCt big128 rb rs pA pInv x key = .ok y := by
+  apply Ks.atkAutomorphism_rows <;> assumption
+
+/-- … and keeps its plaintext, with the key-switch error conjugated by `σ_{p⁻¹}` -/
+theorem atk_automorphism_phase (big128 : Bool) (rb rs : Nat) (p pInv : Int) (x : Ct) (key : Key) (y : Ct)
+    (phA phS phQ phOut err : Ct → M) (sg sgInv : M →+ M) (hinv : ∀ m, sgInv (sg m) = m)
+    (hpre : phS { x with cols := (List.range (key.rankOut + 1)).map (fun i => vecAutomorphism p x.n x.size (x.cols.getD i [])) } = sg (phA x))
+    (hks : ∀ t r, keyswitch big128 rb rs key.rankOut t key = .ok r → phQ r = phS t + err t)
+    (hpost : ∀ r, phOut (ctMapCols r (vecAutomorphismAssignW w64 pInv)) = sgInv (phQ r))
+    (h : atkAutoCt big128 rb rs p pInv x key = .ok y) :
+    phOut y = phA x + sgInv (err { x with cols := (List.range (key.rankOut + 1)).map (fun i => vecAutomorphism p x.n x.size (x.cols.getD i [])) }) := by
+  apply Ks.atk_automorphism_phase <;> assumption
+
+/-- **`ggsw_keyswitch`** (row loop over `res.dnum`, poulpy 95a5a90): column 0 of row `r` = `glwe_keyswitch` of column 0 of row `r` of the operand, then row expansion -/
+theorem ggsw_keyswitch_steps (big128 : Bool) (n rb rs rd rds ab ads : Nat) (aCol0 : List Ct) (key : Key) (t : ToGGSWKey)
+    (cells : List (List Col)) (h : ggswKeyswitch big128 n rb rs rd rds ab ads aCol0 key t = .ok cells) :
+    ∃ col0 : List Ct, col0.length = rd ∧
+      (∀ (r : Nat) (y : Ct), col0[r]? = some y → ∃ x, aCol0[r]? = some x ∧ keyswitch big128 rb rs key.rankOut x key = .ok y) ∧
+      expandRows big128 n rb rs col0 t = .ok cells := by
+  apply Ks.ggswKeyswitch_steps <;> assumption
+
+example : ∃ cells, ggswKeyswitch false 1 4 1 0 1 4 1 [] exK1
+    { base2k := 4, n := 1, rank := 1, dsize := 1, dnum := 1, size := 2, keys := [] } = .ok cells := ⟨_, rfl⟩
+
+/-- **`ggsw_automorphism`**: the same with `glwe_automorphism` -/
+theorem ggsw_automorphism_steps (big128 : Bool) (n rb rs rd rds ab ads : Nat) (aCol0 : List Ct) (key : Key) (t : ToGGSWKey)
+    (cells : List (List Col)) (h : ggswAutomorphism big128 n rb rs rd rds ab ads aCol0 key t = .ok cells) :
+    ∃ col0 : List Ct, col0.length = rd ∧
+      (∀ (r : Nat) (y : Ct), col0[r]? = some y → ∃ x, aCol0[r]? = some x ∧ automorphism big128 rb rs key.rankOut x key = .ok y) ∧
+      expandRows big128 n rb rs col0 t = .ok cells := by
+  apply Ks.ggswAutomorphism_steps <;> assumption
+
+/-- **every cell of the resulting GGSW**: cell `(r,0)` decrypts to `img(φ_r) + err`, cell `(r,col+1)` to `s_col⋆(img(φ_r) + err) + e_exp` (`img = id` / `σ_p`; the row-expansion contract `hexp` is `C04.row_expansion_identity`) -/
+theorem ggsw_cells_phase (big128 : Bool) (n rb rs : Nat) (aCol0 col0 : List Ct) (t : ToGGSWKey) (cells : List (List Col))
+    (step : Ct → Outcome Ct)
+    (phIn phOut err : Ct → M) (img : M → M) (phCell : Nat → List Col → M) (mulS : Nat → M → M) (eExp : Ct → Nat → M)
+    (hcol0 : ∀ (r : Nat) (y : Ct), col0[r]? = some y → ∃ x, aCol0[r]? = some x ∧ step x = .ok y)
+    (hstep : ∀ x y, step x = .ok y → phOut y = img (phIn x) + err x)
+    (hexp : ∀ (c : Ct) (rest : List (List Col)) (col : Nat) (cell : List Col), expandRow big128 n rb rs c.cols t = some rest → rest[col]? = some cell →
+      phCell col cell = mulS col (phOut c) + eExp c col)
+    (h : expandRows big128 n rb rs col0 t = .ok cells) :
+    ∃ rows : List (List (List Col)), cells = rows.flatten ∧ rows.length = col0.length ∧
+      ∀ (r : Nat) (row : List (List Col)), rows[r]? = some row → ∃ (x c : Ct) (rest : List (List Col)), aCol0[r]? = some x ∧ row = c.cols :: rest ∧
+        phOut c = img (phIn x) + err x ∧
+        ∀ (col : Nat) (cell : List Col), rest[col]? = some cell → phCell col cell = mulS col (img (phIn x) + err x) + eExp c col := by
+  apply Ks.ggsw_cells_phase <;> assumption
+
+/-- data flow of `glwe_automorphism_{add,sub,sub_negate}{,_assign}`: convert, key-switch into the accumulator, per column `σ_p`, `± a_conv`, normalise -/
+theorem automorphism_fused_steps (f : Fused) (big128 : Bool) (dft0 : Buf) (rb rs rr : Nat) (a : Ct) (key : Key) (y : Ct)
+    (h : automorphismFused f big128 dft0 rb rs rr a key = .ok y) :
+    ∃ aConv resBig, convIn a key = .ok aConv ∧ keyswitchInternal big128 dft0 aConv key = .ok resBig ∧
+      y.base2k = rb ∧ y.cols.length = rr + 1 ∧
+      ∀ (i : Nat) (c : Col), y.cols[i]? = some c →
+        bigNormalize big128 rb rs (f.apply big128 (bigAutomorphismAssign big128 key.p (resBig.act i)) (aConv.cols.getD i []))
+          key.base2k resBig.n = .ok c := by
+  apply Ks.automorphismFused_steps <;> assumption
+
+example : ∃ y, automorphismFused .add false (zeroBuf 1 2 2) 4 1 1 (mkCt 4 1 [[[3]], [[1]]]) exK1 = .ok y := ⟨_, rfl⟩
+
+/-- the fused forms decrypt to `σ_p(φ + err) ⊕ φ + rnd` (`⊕` = `+`, `−`, reversed `−` through `comb`) -/
+theorem automorphism_fused_phase (f : Fused) (big128 : Bool) (dft0 : Buf) (rb rs rr : Nat) (a : Ct) (key : Key) (y : Ct)
+    (phIn : Ct → M) (phBig : Buf → M) (phOut : Ct → M) (err rnd : Ct → M) (sg : M →+ M) (comb : M → M → M)
+    (hks : ∀ x r, keyswitchInternal big128 dft0 x key = .ok r → phBig r = phIn x + err x)
+    (hpipe : ∀ x r, convIn a key = .ok x → keyswitchInternal big128 dft0 x key = .ok r →
+      phOut y = comb (sg (phBig r)) (phIn x) + rnd x)
+    (h : automorphismFused f big128 dft0 rb rs rr a key = .ok y) :
+    ∃ aConv, convIn a key = .ok aConv ∧ phOut y = comb (sg (phIn aConv) + sg (err aConv)) (phIn aConv) + rnd aConv := by
+  apply Ks.automorphism_fused_phase <;> assumption
+
+/-- **`glwe_pack`, value statement for every subset `S` of slots**: inputs `f J = u J + w J` (`u J` fixed by all levels, `w J` killed by the full projector; absent slots `u = 0`): after the `L` packing levels and the trace over levels `L…K−1` the result is `Σ_{m∈S} X^{J_m}·u_{J_m}`, `J_m = idxOff s L m` — slot `J` lands on coefficient `J` with scale 1 and sign `+`, nothing else survives -/
+theorem pack_value_all_subsets (c : Contract M) (s : ℕ → ℕ) (f u w : ℕ → M) {L K : ℕ} (hLK : L ≤ K)
+    (hs : ∀ i, i < L → (s i : ℤ) = c.t i)
+    (hf : ∀ J, f J = u J + w J)
+    (hu : ∀ J i, i < K → c.sig i (u J) = u J)
+    (hw : ∀ J, Ks.traceAbs c (List.range K) (w J) = 0)
+    (S : Finset ℕ) (hS : S ⊆ range (2 ^ L))
+    (habs : ∀ m ∈ range (2 ^ L), m ∉ S → u (idxOff s L m) = 0) :
+    Ks.traceAbs c (List.range' L (K - L)) (after c s f L 0)
+      = ∑ m ∈ S, c.rot (idxOff s L m : ℤ) (u (idxOff s L m)) := by
+  apply Pack.pack_value_decomp_subset <;> assumption
+
+/-- in `ℚ[X]/(X²+1)`: slots `{0,1}`, `{0}`, `{1}` — the projector kills the `X`-parts of the inputs, the constants land on their slots -/
+example (x x' : ℕ → ℚ) :
+    Ks.traceAbs Pack.model (List.range' 1 (1 - 1)) (Pack.after Pack.model (fun _ => 1) (fun J => (x J, x' J)) 1 0) = (x 0, x 1) :=
+  Pack.model_pack_value x x'
+
+/-- **`glwe_trace` with start level `skip > 0`**: a phase `u + Σ w` with `u` fixed by the levels `skip ≤ i < K` and every `w` negated at some level `j ≥ skip` (fixed before) is mapped to `u` (scale 1: the code halves before every `x + σ(x)`) -/
+theorem trace_value_start (c : Contract M) (skip K : ℕ) (u : M) (ws : List M)
+    (hu : ∀ i, skip ≤ i → i < K → c.sig i u = u)
+    (hw : ∀ w ∈ ws, ∃ j, skip ≤ j ∧ j < K ∧ (∀ i, skip ≤ i → i < j → c.sig i w = w) ∧ c.sig j w = -w) :
+    Ks.traceAbs c (List.range' skip (K - skip)) (u + ws.sum) = u := by
+  apply Pack.trace_value_of_negated <;> assumption
+
+/-- **streaming `GLWEPacker` (add … add, flush), every subset `S` of arrivals**: the value after `2^m` arrivals is `Σ_{k∈S} X^{revOff k}·u_k` — arrival `k` lands rotated by the bit-reversed offset, scale 1, sign `+` -/
+theorem packer_value_all_subsets (c : Contract M) (lb : ℕ) (g u : ℕ → M) (m : ℕ)
+    (hQ : ∀ k, Q (shift c lb) m (g k) = u k)
+    (S : Finset ℕ) (hS : S ⊆ range (2 ^ m)) (habs : ∀ k ∈ range (2 ^ m), k ∉ S → u k = 0) :
+    packerVal c lb g m = ∑ k ∈ S, c.rot (revOff c lb m k) (u k) := by
+  apply Pack.packer_value_subset <;> assumption
+
+example (x x' : ℕ → ℚ) : Pack.packerVal Pack.model 0 (fun k => (x k, x' k)) 1 = (x 0, x 1) := Pack.model_packer_value x x'
+
+/-- the packer's placement: `revOff k = Σ_{i<m} bit_i(k)·t_{lb+i}` (`t_j = N/2^{j+1}`) -/
+theorem packer_offsets_bit_reversed (c : Contract M) (lb : ℕ) {m k : ℕ} (h : k < 2 ^ m) :
+    revOff c lb m k = ∑ i ∈ range m, ((k / 2 ^ i % 2 : ℕ) : ℤ) * c.t (lb + i) := by
+  apply Pack.revOff_eq_bits <;> assumption
+
+/-- the same from the decomposition `g k = u k + w k` -/
+theorem packer_value_decomp (c : Contract M) (lb : ℕ) (g u w : ℕ → M) (m : ℕ)
+    (hg : ∀ k, g k = u k + w k)
+    (hu : ∀ k i, lb ≤ i → i < lb + m → c.sig i (u k) = u k)
+    (hw : ∀ k, Ks.traceAbs c (List.range' lb m) (w k) = 0) :
+    packerVal c lb g m = ∑ k ∈ range (2 ^ m), c.rot (revOff c lb m k) (u k) := by
+  apply Pack.packer_value_decomp <;> assumption
+
+end Closing
 
 end C03
